@@ -98,10 +98,13 @@ fn bool_vector(size: i32) {
                 }
                 i += 1;
             }
-            // documented rounding: share rounded to two decimals, then truncated to whole bits
-            let want = s * size as f32;
-            let tol = 1.0 + 0.005 * size as f32 + 0.001;
-            assert!((cnt as f32 - want).abs() < tol, "number of TRUE bits is not the sparsity share of the length");
+            // documented rounding (comments of random_bool_vector): the default bit is FALSE unless more
+            // than half of the bits should be active; the share of non-default bits, min(s, 1-s), is
+            // rounded to two decimals and the product with the length is truncated to whole bits
+            let share = (100.0 * f32::min(s, 1.0 - s)).round() / 100.0;
+            let flipped = (share * size as f32) as i32;
+            let want = if s > 0.5 { size - flipped } else { flipped };
+            assert!(cnt == want, "number of TRUE bits is not the sparsity share of the length (documented rounding)");
             std::mem::forget(v);
         }
         None => assert!(size < 0 || !(s >= 0.0 && s <= 1.0), "no vector although the parameters are valid"),
